@@ -1,4 +1,5 @@
 import re
+from dataclasses import replace
 from typing import List, Dict
 
 from openpyxl import load_workbook
@@ -137,6 +138,13 @@ class Excel:
     def get_matrix(self, first: Cell, second: Cell) -> list:
         self._handle_cell_identifiers(first)
         self._handle_cell_identifiers(second)
+
+        # the two corners span the same area in whatever order they are written (B2:A1 is A1:B2; Excel puts them in order when a
+        # formula is typed, files written by other tools keep them as they are)
+        rows_given = isinstance(first.row, int) and isinstance(second.row, int)
+        first, second = (
+            replace(first, column=min(first.column, second.column), row=min(first.row, second.row) if rows_given else first.row),
+            replace(second, column=max(first.column, second.column), row=max(first.row, second.row) if rows_given else second.row))
 
         if first.row is None and second.row is None:
             if first.column == second.column:
